@@ -493,6 +493,8 @@ def run_check(plugin, tier, seed, replay_path=None):
             print('VIOLATION property=%s replay=%s' % (pid, replay_path))
             return 1
 
+        phase = {}
+        tp = time.time()
         # 1. Tie A: regenerate the translated model
         gen_report = []
         for rel, fn in getattr(plugin, 'GEN', []):
@@ -506,6 +508,7 @@ def run_check(plugin, tier, seed, replay_path=None):
             except Exception as e:
                 broken.append(('translator', rel, 'translator crashed: %s\n%s' % (e, traceback.format_exc()[-1500:])))
 
+        phase['translate'] = round(time.time() - tp, 1); tp = time.time()
         # 2. proof cone
         props = list(plugin.PROPS)
         files = cone(props)
@@ -546,6 +549,7 @@ def run_check(plugin, tier, seed, replay_path=None):
         else:
             chk = None
 
+        phase['proofs'] = round(time.time() - tp, 1); tp = time.time()
         # 3. correspondence (Tie B)
         corr = Corr()
         if build_ok or not getattr(plugin, 'CORR_NEEDS_BUILD', True):
@@ -556,6 +560,7 @@ def run_check(plugin, tier, seed, replay_path=None):
             for d in corr.disagreements[:5]:
                 broken.append(('correspondence', d.get('what', 'model and implementation differ'), json.dumps(d, default=str)[:3000]))
 
+        phase['correspondence'] = round(time.time() - tp, 1); tp = time.time()
         # 4. search: property-level oracle against the implementation
         deep = bool(broken) or ctx.thorough
         try:
@@ -564,6 +569,7 @@ def run_check(plugin, tier, seed, replay_path=None):
             srch = Search()
             broken.append(('search', 'harness error', '%s\n%s' % (e, traceback.format_exc()[-2500:])))
 
+        phase['search'] = round(time.time() - tp, 1); tp = time.time()
         # 5. known findings
         known = known_for(pid)
         known_keys = {k['key']: k for k in known}
@@ -632,6 +638,7 @@ def run_check(plugin, tier, seed, replay_path=None):
             'input_distribution': {'correspondence': corr.distribution, 'search': srch.distribution},
             'exhaustive': bool(srch.exhaustive),
             'broken': [{'kind': b[0], 'what': b[1]} for b in broken],
+            'phase_seconds': phase,
         }
         if discharged == 0:
             # a proof-level record needs discharged >= 1; a broken run is reported with the generic keys only
